@@ -59,7 +59,9 @@ pub fn check_program(b: &mut Builder, t: &Rc<Term>, p: Place, inputs: &[Rc<RV>],
     let wrapped = place(t, p);
     let prog = b.redeem(&wrapped).map_err(|e| ("build".to_string(), e))?;
     let tgt = b.fin(&wrapped.tgt);
-    for input in inputs {
+    // the tracker comparison re-runs the program: on large input sets (jets) it is taken on a fixed stride
+    let trace_stride = (inputs.len() / 256).max(1);
+    for (input_ix, input) in inputs.iter().enumerate() {
         out.transitions += 1;
         let obs = run_on_machine(&prog, input, &wrapped.src, &tgt).map_err(|e| ("exec:unexpected".to_string(), format!("input {input}: {e}")))?;
         // the closure borrows b mutably for CMRs of disconnect branches
@@ -96,6 +98,34 @@ pub fn check_program(b: &mut Builder, t: &Rc<Term>, p: Place, inputs: &[Rc<RV>],
                     (Ok(got), Err(e)) => return Err(("exec:succeeds-but-semantics-fail".into(), format!("input {input}: machine returns {got}, semantics fail with {e:?}"))),
                     (Err(a), Ok(want)) => return Err(("exec:fails-but-semantics-succeed".into(), format!("input {input}: machine fails with {a:?}, semantics give {want}"))),
                 }
+                if input_ix % trace_stride != 0 {
+                    continue;
+                }
+                // intermediate states: every node visit the machine reports to a tracker, against the traced semantics
+                let want_trace = {
+                    let mut cm = |x: &Term| b.cmr(x);
+                    let cell = std::cell::RefCell::new(&mut cm);
+                    let tr = std::cell::RefCell::new(vec![]);
+                    let _ = eval_traced(&wrapped, input, &|x| (cell.borrow_mut())(x), &tr);
+                    tr.into_inner()
+                };
+                let got_trace = trace_on_machine(&prog, input, &wrapped.src).map_err(|e| ("trace:unexpected".to_string(), format!("input {input}: {e}")))?;
+                out.transitions += got_trace.len() as u64;
+                for (i, w) in want_trace.iter().enumerate() {
+                    match got_trace.get(i) {
+                        None => return Err(("trace:short".into(), format!("input {input}: the tracker saw {} node visits, the semantics evaluate {} sub-terms; first missing: #{i} {w}", got_trace.len(), want_trace.len()))),
+                        Some(Err(e)) => return Err(("trace:unreadable-frame".into(), format!("input {input}: visit #{i}: {e}; semantics: {w}"))),
+                        Some(Ok(g)) if g != w => {
+                            let class = if g.kind != w.kind { "trace:wrong-node" } else if g.input != w.input { "trace:wrong-input" } else { "trace:wrong-output" };
+                            return Err((class.into(), format!("input {input}: visit #{i}: the tracker saw {g}, the semantics give {w}")));
+                        }
+                        _ => {}
+                    }
+                }
+                if got_trace.len() > want_trace.len() {
+                    return Err(("trace:long".into(), format!("input {input}: the tracker saw {} node visits, the semantics evaluate {} sub-terms", got_trace.len(), want_trace.len())));
+                }
+                out.count("traced-visits", want_trace.len() as u64);
             }
             Mode::Bounds => {
                 if obs.limit_refused {
